@@ -693,6 +693,8 @@ def graph_options(rng, n, edges, rich=True):
         o['node_order'] = rng.sample(range(n), n)
     if rng.random() < 0.3:
         o['seeds'] = rng.sample(range(n), rng.randrange(0, n + 1))
+        if o['seeds'] and rng.random() < 0.4:
+            o['seeds'] = [[i, 1] for i in o['seeds']]      # a dict {node: label}
     if rng.random() < 0.25:
         o['node_weights'] = [rng.choice([0, 1, 2, 5]) for _ in range(n)]
         if rng.random() < 0.5:
@@ -763,6 +765,14 @@ def gen_graph_cases(ctx):
                                   'position': positions(rng, n, pattern), 'names': name_desc(rng, n), 'opts': o,
                                   'file': rng.random() < 0.1})
                     ctx.count('graph:exhaustive-n%d' % n)
+    # digraphs on 4 nodes (thorough: 1500 sampled, quick: 40), random position pattern and options
+    g4 = list(graphs.all_digraphs(4))
+    for es in rng.sample(g4, 40 if quick else 1500):
+        indptr, indices, data = csr_parts(rng, 4, 4, es)
+        descs.append({'f': 'visualize_graph', 'n': 4, 'indptr': indptr, 'indices': indices, 'data': data,
+                      'position': positions(rng, 4, rng.choice(POSITION_PATTERNS)), 'names': name_desc(rng, 4),
+                      'opts': graph_options(rng, 4, es, rich=rng.random() < 0.5), 'file': rng.random() < 0.1})
+        ctx.count('graph:sampled-n4')
     # structured random graphs with rich options
     for name, n, es, w in graphs.suite(rng, 70 if quick else 700, 2, 10):
         wts = [rng.choice([1, 2, 3, 0.5, 8]) for _ in es]
